@@ -169,12 +169,17 @@ class _Global(ast.NodeTransformer):
                     and lp.body[0].body[0].value.value is not nxt.value.value:
                 found = lp.body[0].body[0].value.value
                 test = lp.body[0].test
+                # a conjunction `c1 and ... and cn` splits into the filter c1..c(n-1) and the element test cn
+                ifs_ = []
+                if isinstance(test, ast.BoolOp) and isinstance(test.op, ast.And) and len(test.values) >= 2:
+                    ifs_ = [test.values[0]] if len(test.values) == 2 else [ast.BoolOp(op=ast.And(), values=test.values[:-1])]
+                    test = test.values[-1]
                 if found:  # any
                     elt, fn = test, "any"
                 else:  # all(not C)
                     elt = test.operand if isinstance(test, ast.UnaryOp) and isinstance(test.op, ast.Not) else ast.UnaryOp(op=ast.Not(), operand=test)
                     fn = "all"
-                gen = ast.GeneratorExp(elt=elt, generators=[ast.comprehension(target=lp.target, iter=lp.iter, ifs=[], is_async=0)])
+                gen = ast.GeneratorExp(elt=elt, generators=[ast.comprehension(target=lp.target, iter=lp.iter, ifs=ifs_, is_async=0)])
                 ret = ast.copy_location(ast.Return(value=ast.Call(func=ast.Name(id=fn, ctx=ast.Load()), args=[gen], keywords=[])), lp)
                 return res[:i] + [ret] + res[i + 2:]
         # G10: `xs = []` ... `for T in I: [if C:] xs.append(E)` -> `xs = [E for T in I if C]` (nothing in between mentions xs)
